@@ -185,14 +185,28 @@ def pmap(module, shards, jobs):
                 sys.exit(2)
             acc.merge(r)
         return acc
+    # ProcessPoolExecutor (not mp.Pool): if a worker process dies (e.g. killed for memory) the run ends with a harness error instead
+    # of waiting forever for the lost shard
+    import concurrent.futures as cf
     ctx = mp.get_context("fork")
-    with ctx.Pool(min(jobs, len(shards))) as pool:
-        for st, r in pool.imap_unordered(_worker, shards, chunksize=1):
+    ex = cf.ProcessPoolExecutor(max_workers=min(jobs, len(shards)), mp_context=ctx)
+    try:
+        futs = [ex.submit(_worker, s) for s in shards]
+        for fut in cf.as_completed(futs):
+            try:
+                st, r = fut.result()
+            except cf.process.BrokenProcessPool:
+                print("HARNESS-ERROR: a worker process died (out of memory?); the exploration is incomplete")
+                ex.shutdown(wait=False, cancel_futures=True)
+                os._exit(2)
             if st == "err":
                 print("HARNESS-ERROR in shard:\n" + r)
-                pool.terminate()
-                sys.exit(2)
+                ex.shutdown(wait=False, cancel_futures=True)
+                sys.stdout.flush()
+                os._exit(2)
             acc.merge(r)
+    finally:
+        ex.shutdown(wait=False, cancel_futures=True)
     return acc
 
 
